@@ -152,6 +152,25 @@ def cb_retain_forward(prefix, impl, spec):
     return fixed != impl and broker_oracle(prefix[-1], fixed, spec)
 
 
+def overlap_episode(prefix, impl=None, spec=None):
+    """two live connections presented the same client identifier earlier in the episode: the broker keeps
+    both on one shared session (no take-over); the specification leaves everything after that open and what
+    the shared session then does depends on Go map order — model/implementation differences there are notes"""
+    live = {}
+    for op in prefix:
+        w = op.split()
+        if len(w) >= 13 and w[1] in ('first', 'firstp') and w[3] == 'connect':
+            cid = w[11]
+            if cid != '-' and cid in live.values():
+                return True
+            live[w[2]] = cid
+        elif w[1:2] == ['close'] and len(w) > 2:
+            live.pop(w[2], None)
+        elif w[1:2] == ['pkt'] and len(w) > 3 and w[3] == 'disconnect':
+            live.pop(w[2], None)
+    return False
+
+
 BROKER_ASSUMPTIONS = [
     "one event = one atomic step (one processor goroutine per connection; trie accesses under smu/rmu; packet writes under wmu) — the schedule quantifier is represented only by the order of events",
     "the correspondence serialises events behind PINGREQ/PINGRESP barriers on every live connection",
@@ -163,7 +182,7 @@ BROKER_ASSUMPTIONS = [
 
 def mk(pid, module, runs, classes=None):
     register(Prop(pid, module, ['broker'], runs=runs, oracle=broker_oracle, nontrivial=broker_nontrivial,
-                  spec_total=False, classes=dict({'empty_level': has_empty_level, 'dollar_level': has_dollar_level,
+                  spec_total=False, unspecified=overlap_episode, classes=dict({'empty_level': has_empty_level, 'dollar_level': has_dollar_level,
                                 'cb_retain_forward': cb_retain_forward}, **(classes or {})),
                   assumptions=BROKER_ASSUMPTIONS, trusted=COMMON_TRUSTED + [
                       "regenerated facts: topics.MaxQosAllowed, message.SupportedVersions, Ackqueue tables"]))
